@@ -35,7 +35,7 @@ rule("R-BOUNDS", bounds.r_bounds, 25,
      "must-fact establishing its precondition on the same value numbers (index<LEN, LEN>0, index<=LEN, start<=end<=LEN); no effect precedes the guard")
 rule("R-LENLOWER", bounds.r_lenlower, 10,
      "each handle constructor lowers LEN exactly once, on every path, to its index/start parameter (Pop: LEN-1), and has no other effect")
-rule("R-FORMULA", formula.r_formula, 60,
+rule("R-FORMULA", formula.r_formula, 45,
      "per operation and dispatch arm, the effect summary (guards, ordered effects with their polynomial terms, final LEN) equals the Vec model row",
      props_filter=formula_filter)
 
@@ -84,21 +84,68 @@ rule("R-ITER", structure.r_iter, 12,
 rule("R-SIG", structure.r_sig, 35,
      "borrow-shaped signatures: exclusive handles only from &mut self; returned lifetimes are the receiver's borrow, not an impl-level lifetime; exclusive handles/iterators are not Clone")
 
+rule("R-STACKCAP", structure.r_stackcap, 4,
+     "Stack<SIZE>::build computes SIZE / element size guarded by size != 0 (usize::MAX for zero-sized); StackNMem::size() = N; StackN::build establishes N x size <= SIZE")
+rule("R-CONFIG", structure.r_config, 250, multi=True,
+     template="feature configurations: the no-alloc build links only core, is #![no_std], its API surface = default - mem::heap, and every body present in both "
+              "configurations is structurally identical (so all other verdicts carry over)")
+
 _EXPL = ("static rule conformance on the type-checked program (MIR exported by a rustc driver from /repo's working tree): "
          "decides the structural clauses named in DESIGN.md section 4 for this property, not the behavioural statement as a whole")
 
+
+def _fn_filter(mapping, default=None):
+    """findings are attributed to properties by (substring of) function / role"""
+    def flt(prop, f):
+        if f.kind == "coverage-lost" and (f.func or "").startswith("<"):
+            return True
+        key = f.key
+        for pat, props in mapping:
+            if pat in key:
+                return prop in props
+        return True if default is None else prop in default
+    return flt
+
+
+RULES["R-ORDER"]["props_filter"] = _fn_filter([("P1-", ["C05"]), ("P2-", ["C06", "C03"]), ("P3-", ["C03", "C06"]), ("P4-", ["C03", "C06"]), ("P5-", ["C08", "C06"])])
+RULES["R-ARITH"]["props_filter"] = _fn_filter([("into_range", ["C02"]), ("splice", ["C02", "C11"]), ("stack_n", ["C11"]), ("HeapMem", ["C10", "C18"]),
+                                                ("mem::MemResizable", ["C10", "C18"]), ("reserve", ["C10"])], default=["C10", "C18"])
+RULES["R-BOUNDS"]["props_filter"] = _fn_filter([("ctor:Drain", ["C02", "C05"]), ("ctor:Splice", ["C02", "C05"]), ("unchecked-access", ["C13", "C01", "C05"]),
+                                                 ("into_range", ["C02"])], default=["C01", "C05"])
+RULES["R-UNITS"]["props_filter"] = _fn_filter([("spare_bytes_mut", ["C12", "C05"]), ("as_bytes", ["C12", "C05"]), ("AnyVecTyped", ["C12", "C05"]), ("splice", ["C02", "C11", "C05"]),
+                                                ("drain", ["C02", "C05"]), ("heap", ["C18"]), ("stride-type", ["C03", "C05"])], default=["C01", "C05"])
+RULES["R-EXPANDGUARD"]["props_filter"] = _fn_filter([("clone", ["C08", "C11"])], default=["C11"])
+RULES["R-TYPEGUARD"]["props_filter"] = _fn_filter([("swap", ["C04", "C13"])], default=["C04"])
+RULES["R-LENLOWER"]["props_filter"] = _fn_filter([("drain", ["C02", "C07", "C06"]), ("splice", ["C02", "C07", "C06"])], default=["C07", "C06", "C01"])
+RULES["R-FORGET"]["props_filter"] = _fn_filter([("LazyClone", ["C09", "C03"]), ("lazy", ["C09", "C03"])], default=["C03", "C09"])
+RULES["R-PROVENANCE"]["props_filter"] = _fn_filter([("reporter", ["C04", "C13"]), ("clone", ["C08", "C03"]), ("CLONE_FN", ["C08"]), ("destr", ["C03"])], default=["C04", "C08", "C03"])
+
 PROPERTIES = {
-    "C01": {"rules": ["R-BOUNDS", "R-FORMULA"], "not_decided": "value-level equality of elements; user backends violating the Mem contract"},
-    "C02": {"rules": ["R-BOUNDS", "R-LENLOWER", "R-FORMULA"], "not_decided": "equality of yielded values"},
-    "C03": {"rules": ["R-FORMULA"], "not_decided": "global count of live values over histories"},
-    "C05": {"rules": ["R-FORMULA"], "not_decided": "read-before-write in general, guard zones / poison (run-time notions)"},
+    "C01": {"rules": ["R-BOUNDS", "R-FORMULA", "R-UNITS", "R-OVERLAP"],
+            "not_decided": "value-level equality of elements (the analysis tracks slots and byte ranges, not contents); user backends violating the Mem contract"},
+    "C02": {"rules": ["R-BOUNDS", "R-LENLOWER", "R-ITER", "R-FORMULA", "R-NONINTERFERENCE", "R-UNITS", "R-ARITH", "R-BOUNDLOOP"],
+            "not_decided": "equality of yielded values"},
+    "C03": {"rules": ["R-FORGET", "R-PROVENANCE", "R-ORDER", "R-NONINTERFERENCE", "R-FORMULA"],
+            "not_decided": "a global count of live values over histories (ownership discipline is decided, not identity accounting)"},
+    "C04": {"rules": ["R-TYPEGUARD", "R-PROVENANCE"], "not_decided": "which downcast succeeds at run time; decided: every unchecked reinterpretation sits behind the right equality test"},
+    "C05": {"rules": ["R-ORDER", "R-BOUNDS", "R-UNITS", "R-FORMULA", "R-BOUNDLOOP"],
+            "not_decided": "'no byte is read before it was written' in general, guard zones / poison (run-time notions)"},
+    "C06": {"rules": ["R-ORDER", "R-BOUNDLOOP", "R-LENLOWER"], "not_decided": "that later operations stay fully usable beyond LEN<=CAP and visible-range integrity"},
     "C07": {"rules": ["R-LENLOWER", "R-FORMULA"], "not_decided": ""},
-    "C08": {"rules": ["R-FORMULA"], "not_decided": "each source element cloned exactly once beyond the clone function's loop shape"},
-    "C10": {"rules": ["R-FORMULA"], "not_decided": "the count of reallocations over 2^16 pushes (only the doubling term is checked)"},
-    "C11": {"rules": ["R-FORMULA"], "not_decided": "behavioural equality with the heap backend beyond 'same generic code'"},
-    "C12": {"rules": ["R-FORMULA"], "not_decided": ""},
-    "C13": {"rules": ["R-FORMULA"], "not_decided": "value equality after mutation"},
-    "C14": {"rules": ["R-FORMULA"], "not_decided": ""},
+    "C08": {"rules": ["R-FORMULA", "R-ORDER", "R-EXPANDGUARD", "R-PROVENANCE"],
+            "not_decided": "each source element cloned exactly once beyond the clone function's loop shape; independence beyond separate storage"},
+    "C09": {"rules": ["R-FORGET"], "not_decided": ""},
+    "C10": {"rules": ["R-ARITH", "R-FORMULA"], "not_decided": "the count of reallocations over 2^16 pushes (only its structural cause, the doubling term, is checked)"},
+    "C11": {"rules": ["R-EXPANDGUARD", "R-FORMULA", "R-ARITH", "R-ALLOCCONFINED", "R-STACKCAP"],
+            "not_decided": "behavioural equality with the heap backend beyond 'same generic code, backend reached only through Mem'"},
+    "C12": {"rules": ["R-FORMULA", "R-UNITS", "R-ALIGN"], "not_decided": ""},
+    "C13": {"rules": ["R-BOUNDS", "R-FORMULA", "R-TYPEGUARD", "R-PROVENANCE"], "not_decided": "value equality after mutation"},
+    "C14": {"rules": ["R-ITER", "R-FORMULA"], "not_decided": "typed iterators are core::slice iterators over the R-FORMULA slice (std adapters trusted)"},
+    "C15": {"rules": [], "probes": ["P15"], "exhaustive": True, "not_decided": ""},
+    "C16": {"rules": ["R-SIG"], "probes": ["P16"], "exhaustive": True, "not_decided": ""},
+    "C17": {"rules": ["R-FIELDMAP"], "not_decided": "'indistinguishable under all further operations' follows only as 'every field is restored'"},
+    "C18": {"rules": ["R-HEAP", "R-ARITH", "R-ALLOCCONFINED", "R-UNITS"], "not_decided": "the allocator's own behaviour"},
+    "C19": {"rules": ["R-CONFIG", "R-ALLOCCONFINED"], "probes": ["P19"], "configs_quick": ["default", "no-alloc"], "not_decided": ""},
 }
 for _p in PROPERTIES.values():
     _p.setdefault("explanation", _EXPL)
